@@ -2,8 +2,360 @@
 import ast
 
 
+EXN_NAMES = {"MissingBlocksizeException": "MissingBlocksize", "OpcodeException": "OpcodeException",
+             "ValueError": "ValueError", "TypeError": "TypeError", "KeyError": "KeyError",
+             "NotImplementedError": "NotImplementedError", "RuntimeError": "RuntimeError",
+             "CommandNotImplemented": '(OtherExn "CommandNotImplemented")'}
+
+
+def dotted(node):
+    parts = []
+    while isinstance(node, ast.Attribute):
+        parts.append(node.attr)
+        node = node.value
+    if isinstance(node, ast.Name):
+        parts.append(node.id)
+        return ".".join(reversed(parts))
+    return None
+
+
+class CtorTranslator:
+    """one __init__ -> flat guarded IR (see coq/Model/Ctor.v)"""
+
+    def __init__(self, mod, cls, fn, enum_consts, prefix=""):
+        from translate import coq_str, const_int, src_of
+        self.mod, self.cls, self.fn = mod, cls, fn
+        self.coq_str, self.const_int, self.src_of = coq_str, const_int, src_of
+        self.enum_consts = enum_consts
+        self.ntemp = 0
+        self.prefix = prefix
+        self.unknown = []
+        self.has_out = False
+        self.subst = {}
+        args = fn.args
+        self.self_name = args.args[0].arg
+        self.op_name = args.args[1].arg if len(args.args) > 1 else None
+
+    # ---- expressions
+    def unk(self, node, what="expr"):
+        src = self.src_of(node, self.mod.text)
+        self.unknown.append("%s.%s: %s" % (self.mod.stem, self.cls.name, src))
+        return src
+
+    def expr(self, e):
+        cs = self.coq_str
+        if isinstance(e, ast.Name):
+            if e.id in self.subst:
+                return self.subst[e.id]
+            return "EVar %s" % cs(e.id)
+        if isinstance(e, ast.Constant):
+            if e.value is None:
+                return "ENone"
+            if isinstance(e.value, bool):
+                return "EConst %d" % int(e.value)
+            if isinstance(e.value, int) and e.value >= 0:
+                return "EConst %d" % e.value
+            return "EUnknown %s" % cs(self.unk(e))
+        d = dotted(e)
+        if d is not None:
+            parts = d.split(".")
+            if parts[0] == self.self_name and parts[1:2] == ["opcode"]:
+                parts = [self.op_name] + parts[2:]
+            if parts[0] == self.op_name:
+                if parts[1:] == ["value"]:
+                    return "EOpValue"
+                if len(parts) == 3 and parts[1] == "serviceaction":
+                    return "ESA %s" % cs(parts[2])
+            if parts == [self.self_name, "dataout"] and self.has_out:
+                return "EVar %s" % cs("%dataout")
+            if d in self.enum_consts:
+                return "EConst %d" % self.enum_consts[d]
+            return "EUnknown %s" % cs(self.unk(e))
+        if isinstance(e, ast.BinOp) and isinstance(e.op, (ast.Mult, ast.Add)):
+            return "(%s (%s) (%s))" % ("EMul" if isinstance(e.op, ast.Mult) else "EAdd", self.expr(e.left), self.expr(e.right))
+        if isinstance(e, ast.IfExp):
+            return "(EIf (%s) (%s) (%s))" % (self.cond(e.test), self.expr(e.body), self.expr(e.orelse))
+        if isinstance(e, ast.Call) and not e.keywords:
+            fd = dotted(e.func)
+            if fd == "len" and len(e.args) == 1:
+                return "(ELen (%s))" % self.expr(e.args[0])
+            if fd == "bytearray" and len(e.args) == 1 and self.const_int(e.args[0]) == 0:
+                return "EBytes0"
+            if fd is not None and all(isinstance(a, ast.Name) for a in e.args):
+                parts = fd.split(".")
+                if parts[0] == self.self_name:
+                    parts[0] = self.cls.name
+                return "(ECall %s [%s])" % (cs(".".join(parts)), "; ".join(cs(a.id) for a in e.args))
+        return "EUnknown %s" % cs(self.unk(e))
+
+    def cond(self, t):
+        if isinstance(t, ast.BoolOp):
+            op = "CAnd" if isinstance(t.op, ast.And) else "COr"
+            acc = self.cond(t.values[-1])
+            for v in reversed(t.values[:-1]):
+                acc = "(%s (%s) (%s))" % (op, self.cond(v), acc)
+            return acc
+        if isinstance(t, ast.UnaryOp) and isinstance(t.op, ast.Not):
+            return "(CNot (%s))" % self.cond(t.operand)
+        if isinstance(t, ast.Compare) and len(t.ops) == 1:
+            a, b, o = t.left, t.comparators[0], t.ops[0]
+            isnone = isinstance(b, ast.Constant) and b.value is None
+            if isinstance(o, ast.Eq):
+                return "(CEq (%s) (%s))" % (self.expr(a), self.expr(b))
+            if isinstance(o, ast.NotEq):
+                return "(CNot (CEq (%s) (%s)))" % (self.expr(a), self.expr(b))
+            if isinstance(o, ast.Is) and isnone:
+                return "(CIsNone (%s))" % self.expr(a)
+            if isinstance(o, ast.IsNot) and isnone:
+                return "(CNot (CIsNone (%s)))" % self.expr(a)
+            return "(CUnknown %s)" % self.coq_str(self.unk(t))
+        return "(CTruthy (%s))" % self.expr(t)
+
+    # ---- statements
+    def temp(self):
+        self.ntemp += 1
+        return "%%%sc%d" % (self.prefix, self.ntemp)
+
+    def guard(self, path):
+        return "[" + "; ".join("(%s, %s)" % (self.coq_str(t), "true" if b else "false") for t, b in path) + "]"
+
+    def emit(self, out, path, stmt):
+        out.append("(%s, %s)" % (self.guard(path), stmt))
+
+    def stmts(self, body, path, out, classes):
+        cs = self.coq_str
+        for s in body:
+            if isinstance(s, ast.Expr) and isinstance(s.value, ast.Constant):
+                continue
+            if isinstance(s, ast.Pass):
+                continue
+            if isinstance(s, ast.If):
+                node, neg = s, []
+                while True:
+                    t = self.temp()
+                    self.emit(out, path + neg, "SAssignC %s %s" % (cs(t), self.cond(node.test)))
+                    self.stmts(node.body, path + neg + [(t, True)], out, classes)
+                    neg = neg + [(t, False)]
+                    if len(node.orelse) == 1 and isinstance(node.orelse[0], ast.If):
+                        node = node.orelse[0]
+                        continue
+                    if node.orelse:
+                        self.stmts(node.orelse, path + neg, out, classes)
+                    break
+                continue
+            if isinstance(s, ast.Raise) and s.exc is not None:
+                e = s.exc.func if isinstance(s.exc, ast.Call) else s.exc
+                name = e.attr if isinstance(e, ast.Attribute) else (e.id if isinstance(e, ast.Name) else None)
+                if name in EXN_NAMES:
+                    self.emit(out, path, "SRaise %s" % EXN_NAMES[name])
+                else:
+                    self.emit(out, path, "SUnknown %s" % cs(self.unk(s)))
+                continue
+            if isinstance(s, ast.Expr) and isinstance(s.value, ast.Call):
+                c = s.value
+                fd = dotted(c.func)
+                if fd and fd.endswith(".__init__") and c.args and isinstance(c.args[0], ast.Name) \
+                        and c.args[0].id == self.self_name and not c.keywords:
+                    parent = fd[:-len(".__init__")]
+                    if parent == "SCSICommand" and len(c.args) == 4 and isinstance(c.args[1], ast.Name) \
+                            and c.args[1].id == self.op_name:
+                        self.emit(out, path, "SInit (%s) (%s)" % (self.expr(c.args[2]), self.expr(c.args[3])))
+                        continue
+                    if parent in classes and len(c.args) >= 2 and isinstance(c.args[1], ast.Name) \
+                            and c.args[1].id == self.op_name:
+                        if self.inline_parent(classes[parent], c.args[2:], path, out, classes):
+                            continue
+                self.emit(out, path, "SUnknown %s" % cs(self.unk(s)))
+                continue
+            if isinstance(s, ast.Assign) and len(s.targets) == 1:
+                tg = s.targets[0]
+                if isinstance(tg, ast.Name):
+                    self.emit(out, path, "SAssign %s (%s)" % (cs(tg.id), self.expr(s.value)))
+                    continue
+                d = dotted(tg)
+                if d == self.self_name + ".cdb" and isinstance(s.value, ast.Call) \
+                        and dotted(s.value.func) == self.self_name + ".build_cdb" \
+                        and all(k.arg is not None for k in s.value.keywords) \
+                        and not any(isinstance(a, ast.Starred) for a in s.value.args):
+                    kvs = "; ".join("(%s, %s)" % (cs(k.arg), self.expr(k.value)) for k in s.value.keywords)
+                    self.emit(out, path, "SBuild %d%%nat [%s]" % (len(s.value.args), kvs))
+                    continue
+                if d == self.self_name + ".dataout":
+                    self.emit(out, path, "SAssign %s (%s)" % (cs("%dataout"), self.expr(s.value)))
+                    self.emit(out, path, "SSetOut (EVar %s)" % cs("%dataout"))
+                    self.has_out = not path
+                    continue
+                if d == self.self_name + ".datain":
+                    self.emit(out, path, "SSetIn (%s)" % self.expr(s.value))
+                    continue
+                if d and d.startswith(self.self_name + "._") and d.count(".") == 1:
+                    self.emit(out, path, "SSetAttr %s (%s)" % (cs(d.split(".")[1]), self.expr(s.value)))
+                    continue
+            self.emit(out, path, "SUnknown %s" % cs(self.unk(s)))
+
+    def inline_parent(self, pinfo, argnodes, path, out, classes):
+        """Parent.__init__(self, opcode, e1, ...) -> p_i := e_i ; parent's body   (only self-references allowed)"""
+        pfn = pinfo["fn"]
+        pparams = [a.arg for a in pfn.args.args[2:]]
+        if pfn.args.vararg or pfn.args.kwarg or pfn.args.kwonlyargs or len(argnodes) > len(pparams):
+            return False
+        ndef = len(pfn.args.defaults)
+        defaults = [None] * (len(pparams) - ndef) + list(pfn.args.defaults)
+        assigns = []
+        for i, p in enumerate(pparams):
+            node = argnodes[i] if i < len(argnodes) else defaults[i]
+            if node is None:
+                return False
+            names = {n.id for n in ast.walk(node) if isinstance(n, ast.Name)}
+            if (names & set(pparams)) - {p}:
+                return False
+            if not (isinstance(node, ast.Name) and node.id == p):
+                assigns.append((p, node))
+        # the parent's parameters are replaced by the (pure) argument expressions; the parent must not reassign them
+        reassigned = {t.id for n in ast.walk(pfn) if isinstance(n, ast.Assign) for t in n.targets if isinstance(t, ast.Name)}
+        if reassigned & {p for p, _ in assigns}:
+            return False
+        sub = CtorTranslator(pinfo["mod"], pinfo["cls"], pfn, self.enum_consts, prefix=self.prefix + pinfo["cls"].name + "_")
+        sub.subst = {p: self.expr(node) for p, node in assigns}
+        sub.self_name, sub.op_name = pfn.args.args[0].arg, pfn.args.args[1].arg
+        if sub.self_name != self.self_name or sub.op_name != self.op_name:
+            return False
+        sub.stmts(pfn.body, path, out, classes)
+        self.unknown += sub.unknown
+        self.has_out = self.has_out or sub.has_out
+        return True
+
+    def default(self, node):
+        cs = self.coq_str
+        if isinstance(node, ast.Constant):
+            if node.value is None:
+                return "CNone"
+            if isinstance(node.value, (int, bool)) and int(node.value) >= 0:
+                return "CInt %d" % int(node.value)
+        if isinstance(node, ast.Call) and dotted(node.func) == "bytearray" and len(node.args) == 1 \
+                and self.const_int(node.args[0]) == 0:
+            return "CBytes []"
+        d = dotted(node)
+        if d is not None and d in self.enum_consts:
+            return "CInt %d" % self.enum_consts[d]
+        if isinstance(node, ast.List) and not node.elts:
+            return "COpaque %s" % cs("[]")
+        return "COpaque %s" % cs(self.src_of(node, self.mod.text))
+
+
+def collect_enum_consts(mods):
+    """X = Enum(<dict name>) with int values  ->  {'X.NAME': v, 'modalias.X.NAME': v}"""
+    from translate import assign_target, int_dict
+    out = {}
+    for mod in mods:
+        dicts = {}
+        for node in mod.tree.body:
+            tgt, val = assign_target(node)
+            if tgt and isinstance(val, ast.Dict):
+                d = int_dict(val)
+                if d is not None:
+                    dicts[tgt] = d
+            if tgt and isinstance(val, ast.Call) and isinstance(val.func, ast.Name) and val.func.id == "Enum" \
+                    and len(val.args) == 1 and isinstance(val.args[0], ast.Name) and val.args[0].id in dicts:
+                for k, v in dicts[val.args[0].id]:
+                    out["%s.%s.%s" % (mod.stem, tgt, k)] = v
+    return out
+
+
 def gen_ctors(mods, tables):
-    return "(* placeholder *)\n", {"ctors": []}
+    from translate import HEADER, coq_str, ident, imports_of
+    tindex = {t["qual"]: t for t in tables}
+    all_enum = collect_enum_consts(mods)
+    # command classes: transitive subclasses of SCSICommand
+    classes = {}      # local class name (per module) -> info ; keyed "stem.Class"
+    byname = {}
+    changed = True
+    cands = []
+    for mod in mods:
+        for node in mod.tree.body:
+            if isinstance(node, ast.ClassDef):
+                cands.append((mod, node))
+    known = {"SCSICommand"}
+    order = []
+    while changed:
+        changed = False
+        for mod, node in cands:
+            key = "%s.%s" % (mod.stem, node.name)
+            if key in classes:
+                continue
+            bases = [b.id for b in node.bases if isinstance(b, ast.Name)]
+            if any(b in known for b in bases) and node.name != "SCSICommand":
+                fn = next((m for m in node.body if isinstance(m, ast.FunctionDef) and m.name == "__init__"), None)
+                classes[key] = dict(mod=mod, cls=node, fn=fn, bases=bases, key=key)
+                byname.setdefault(node.name, []).append(classes[key])
+                known.add(node.name)
+                order.append(key)
+                changed = True
+    lines = [HEADER.format(src="__init__ of every SCSICommand subclass", extra=" Model.Ctor Gen.Tables")]
+    unknown, infos = [], []
+    for key in order:
+        info = classes[key]
+        mod, cls, fn = info["mod"], info["cls"], info["fn"]
+        # resolve self._cdb_bits through the (single-inheritance) chain inside the same module
+        bits_qual, c = None, info
+        seen = 0
+        while c is not None and seen < 5:
+            q = "%s.%s._cdb_bits" % (c["mod"].stem, c["cls"].name)
+            if q in tindex:
+                bits_qual = q
+                break
+            nxt = None
+            for b in c["bases"]:
+                for cand in byname.get(b, []):
+                    if cand["mod"] is c["mod"]:
+                        nxt = cand
+            c = nxt
+            seen += 1
+        # enum constants visible in this module: `from m import X` / `import m as alias`
+        consts = {}
+        for imp_mod, imp_name, as_name in imports_of(mod):
+            stem = imp_mod.split(".")[-1]
+            for k, v in all_enum.items():
+                ks = k.split(".")
+                if ks[0] == stem and ks[1] == imp_name:
+                    consts["%s.%s" % (as_name, ks[2])] = v
+                if ks[0] == imp_name:       # from pkg import module as alias
+                    consts["%s.%s.%s" % (as_name, ks[1], ks[2])] = v
+        for node in mod.tree.body:
+            if isinstance(node, ast.Import):
+                for a in node.names:
+                    stem = a.name.split(".")[-1]
+                    for k, v in all_enum.items():
+                        ks = k.split(".")
+                        if ks[0] == stem and a.asname:
+                            consts["%s.%s.%s" % (a.asname, ks[1], ks[2])] = v
+        cname = "C_" + ident(key.replace(".", "__"))
+        if fn is None or bits_qual is None or len(fn.args.args) < 2 or fn.args.vararg or fn.args.kwonlyargs:
+            unknown.append("%s: no translatable __init__ / _cdb_bits" % key)
+            lines.append("Definition %s : ctor := mkCtor %s \"\" [] [] false [([], SUnknown %s)].\n" % (
+                cname, coq_str(key), coq_str("no __init__")))
+            infos.append(dict(key=key, coq=cname, params=[], unknown=["no init"], bits=None, kwargs=False))
+            continue
+        tr = CtorTranslator(mod, cls, fn, consts)
+        body = []
+        byname_local = {k2.split(".")[1]: v2 for k2, v2 in classes.items() if v2["mod"] is mod and v2["fn"] is not None}
+        tr.stmts(fn.body, [], body, byname_local)
+        pnames = [a.arg for a in fn.args.args[2:]]
+        nd = len(fn.args.defaults)
+        defs = [None] * (len(pnames) - nd) + list(fn.args.defaults)
+        params = "; ".join("(%s, %s)" % (coq_str(p), "None" if d is None else "Some (%s)" % tr.default(d))
+                           for p, d in zip(pnames, defs))
+        lines.append("(* %s:%d *)" % (mod.rel, fn.lineno))
+        lines.append("Definition %s : ctor := mkCtor %s %s %s\n  [%s] %s\n  [%s].\n" % (
+            cname, coq_str(key), coq_str(bits_qual), tindex[bits_qual]["coq"], params,
+            "true" if fn.args.kwarg else "false", ";\n   ".join(body)))
+        unknown += tr.unknown
+        infos.append(dict(key=key, coq=cname, params=pnames, unknown=tr.unknown, bits=bits_qual,
+                          kwargs=bool(fn.args.kwarg), ndefaults=nd, file=mod.rel, cls=cls.name, stem=mod.stem))
+    lines.append("Definition all_ctors : list (string * ctor) := [\n  " + ";\n  ".join(
+        "(%s, %s)" % (coq_str(i["key"]), i["coq"]) for i in infos) + "].\n")
+    lines.append("Definition unknown_ctor_parts : list string := [" + "; ".join(coq_str(u) for u in unknown) + "].\n")
+    return "\n".join(lines), dict(ctors=infos, unknown=unknown)
 
 
 def gen_facade(mods):
